@@ -222,6 +222,49 @@ def r2_threshold(ck, F, R="C08-R2"):
         ck.ob(R, "initial-capacity", ok and okf, f"capacity = {cap.show()} (INITIAL_SORTER_VEC_SIZE when reallocation is allowed, else the whole budget)", bld, s)
 
 
+def _double_or_required(F, rb, size):
+    """new size = max(2 * buffer.len(), required) where `required` is — at every call site when it is a parameter —
+    what the buffer holds plus the entry being inserted plus a constant: growth stays geometric and is never more than
+    what repeated doubling would have reached"""
+    from . import fmt
+    e = size.strip()
+    if not (e.k == "call" and e.x["path"].endswith("cmp::max") and len(e.a) == 2):
+        return False, ""
+    dbl = [x for x in e.a if (lambda c_: bool(c_ and c_[0] == "Mul" and 2 in (const_val(c_[1]), const_val(c_[2])) and any(is_call(y, "::len") and is_self_field(y.strip().a[0], "buffer") for y in (c_[1], c_[2]))))(checked(x))]
+    oth = [x for x in e.a if x not in dbl]
+    if len(dbl) != 1 or len(oth) != 1:
+        return False, ""
+
+    def bounded(cb, x):
+        def sym(y):
+            if is_self_field(y, "entries_len"):
+                return "e"
+            if is_self_field(y, "bounds_count"):
+                return "c"
+            if y.k == "call" and y.x["path"].endswith("::len") and y.a and y.a[0].strip().k == "arg" and y.a[0].strip().x["name"] in ("key", "data"):
+                return "k_" + y.a[0].strip().x["name"]
+            if y.k == "call" and y.x["path"].endswith("::len") and y.a and is_self_field(y.a[0], "buffer"):
+                return "L"
+            if y.k == "call" and y.x["path"].endswith("Entries::estimated_entries_memory_usage"):
+                return "u"
+            if y.k == "call" and y.x["path"].endswith("Entries::entry_size"):
+                return "z"
+            return None
+        f = fmt.linform(x, sym)
+        if f is None:
+            return False
+        lim = {"e": 1, "c": 16, "k_key": 2, "k_data": 2, "L": 1, "u": 1, "z": 1, 1: 64}
+        return all(k in lim and 0 <= v <= lim[k] for k, v in f.items()) and f.get("L", 0) + f.get("u", 0) + f.get("e", 0) <= 1
+    x = oth[0].strip()
+    if x.k == "arg":
+        pi = x.x["i"]
+        sites = [(cb, g) for cb in F.user_bodies() for g, c2, t2 in calls(cb, A("entries_realloc"))]
+        ok = bool(sites) and all(bounded(cb, cb.arg_exprs(g)[pi - 1]) for cb, g in sites)
+    else:
+        ok = bounded(rb, x)
+    return ok, "the larger of twice the current buffer and what the contents plus the new entry need"
+
+
 def r3_grow(ck, F, R="C08-R3"):
     ent = A("entries_struct")
     st = field_stores(F, ent, "buffer")
@@ -242,6 +285,10 @@ def r3_grow(ck, F, R="C08-R3"):
             for cb, g in sites:
                 ok = ok and _doubled_length(cb, cb.arg_exprs(g)[pi - 1], g)
             how = "the current length doubled one or more times, computed by the caller"
+        if not ok:
+            ok2, how2 = _double_or_required(F, rb, rb.arg_exprs(s)[0])
+            if ok2:
+                ok, how = True, how2
         ck.ob(R, "doubling", ok, f"new buffer size = {rb.arg_exprs(s)[0].show()} ({how})", rb, s)
     for b, site, x in st:
         e = b._expr_of_def((site, "assign", x["rv"]))
